@@ -361,6 +361,34 @@ def rule_G(ctx):
                         'speed is planimetric distance over elapsed time: one-sided at both ends, centred elsewhere, NaN exactly when the elapsed time is 0')
                 found.setdefault((what, 'value'), (f, desc, dict(case, **{'feature': got if not isinstance(got, list) else [g_ if isinstance(g_, (int, float)) else repr(g_) for g_ in got],
                                                                          'expected': want, 'first index that differs': k_bad})))
+            # the feature is deleted, the last fix is moved and the feature computed again: it is that of the geometry as it is now
+            # (nothing kept from the first computation - a temporary, a cache - may survive the deletion)
+            if kname == 'Python numbers' and n >= 2:
+                n_cases += 1
+                try:
+                    t3 = build()
+                    run_(t3)
+                    t3.call('removeAnalyticalFeature', feat)
+                    lastp = t3.fields['_Track__POINTS'][n - 1].fields['position']
+                    lastp.fields['E'] = lastp.fields['E'] + 30.0
+                    lastp.fields['N'] = lastp.fields['N'] - 40.0
+                    run_(t3)
+                    got3 = t3.call('getAnalyticalFeature', feat)
+                    moved = [O(k, EN(float(p_[0]) + (30.0 if k == n - 1 else 0.0), float(p_[1]) - (40.0 if k == n - 1 else 0.0), float(p_[2])), stamp(*tm)) for k, (p_, tm) in enumerate(zip(pts, times))]
+                    fresh3 = T(moved, 'u', 't')
+                    run_(fresh3)
+                    want3 = fresh3.call('getAnalyticalFeature', feat)
+                    names3 = sorted(t3.call('getListAnalyticalFeatures'))
+                    names_fresh = sorted(fresh3.call('getListAnalyticalFeatures'))
+                except orders.Unsupported as ex:
+                    raise shape_error('%s after deleting the feature not interpretable: %s' % (call, ex), f.loc())
+                except (ZeroDivisionError, IndexError, KeyError, TypeError, AttributeError, ValueError, orders.Raised, RecursionError) as ex:
+                    found.setdefault((what, 'fails'), (f, '%s does not fail' % call, dict(case, history='computed, feature deleted, last fix moved, computed again', exception='%s: %s' % (type(ex).__name__, str(ex)[:160]))))
+                    continue
+                if not (isinstance(got3, list) and isinstance(want3, list) and len(got3) == len(want3) and all(close(a_, b_) for a_, b_ in zip(got3, want3))) or names3 != names_fresh:
+                    found.setdefault((what, 'recomputed'), (f, '%s computed again after the feature was deleted and a fix moved is that of the present geometry' % what,
+                                                            dict(case, history='computed; removeAnalyticalFeature(%r); last fix moved by (+30, -40); computed again' % feat,
+                                                                 feature=got3, expected=want3, **{'features listed': names3, 'features listed on a track built that way': names_fresh})))
             # a piece cut out of a track (extractSpanTime: fixes 1 ... n-1) gets the feature computed, then the track itself: the piece reads what a track
             # built from those fixes reads, and the track it was cut from reads its own values
             if kname == 'Python numbers' and n >= 3 and 'extractSpanTime' in ctx.prog.cls('tracklib.core.track.Track').methods:
